@@ -47,11 +47,20 @@ def to_q(x):
 # --------------------------------------------------------------------------
 
 
+_TRIAL_BOUND = 200_000
+
+
 def _squarefree_split(n: int):
-    """n = s*s*d with d square-free; returns (s, d)."""
+    """n = s*s*d with d square-free; returns (s, d).  Trial division is bounded: a cofactor beyond the bound that is
+    neither a perfect square nor provably prime is outside the domain (AlgError), never an endless loop."""
+    import math
+
     assert n > 0
+    r = math.isqrt(n)
+    if r * r == n:
+        return r, 1
     s, d, p = 1, 1, 2
-    while p * p <= n:
+    while p * p <= n and p <= _TRIAL_BOUND:
         while n % (p * p) == 0:
             n //= p * p
             s *= p
@@ -59,19 +68,28 @@ def _squarefree_split(n: int):
             n //= p
             d *= p
         p += 1
-    d *= n
+    if n > 1:
+        r = math.isqrt(n)
+        if r * r == n:
+            s *= r
+        elif n <= _TRIAL_BOUND * _TRIAL_BOUND:
+            d *= n  # no factor below its square root: prime
+        else:
+            raise AlgError(f"square root of an integer with an unfactored part of {len(str(n))} digits is outside the exact domain")
     return s, d
 
 
 def _primes_of(d: int):
     out, p = [], 2
-    while p * p <= d:
+    while p * p <= d and p <= _TRIAL_BOUND:
         if d % p == 0:
             out.append(p)
             while d % p == 0:
                 d //= p
         p += 1
     if d > 1:
+        if d > _TRIAL_BOUND * _TRIAL_BOUND:
+            raise AlgError(f"an integer with an unfactored part of {len(str(d))} digits is outside the exact domain")
         out.append(d)
     return out
 
